@@ -55,7 +55,8 @@ def run(module, cfg=None, env=None, workers=16, timeout=3000, simulate=None, dep
     res = TLCResult()
     meta = tempfile.mkdtemp(prefix="tlc_", dir=scratch_root())
     cfg = cfg or (module + ".cfg")
-    jopts = ["-XX:+UseParallelGC", "-Xmx" + heap, "-Xss64m"]
+    # java.io.tmpdir inside the metadir: TLC unpacks its standard modules into a fresh tlc-<n> directory per run and never removes it
+    jopts = ["-XX:+UseParallelGC", "-Xmx" + heap, "-Xss64m", "-Djava.io.tmpdir=" + meta]
     if dfs:
         jopts.append("-Dtlc2.tool.queue.IStateQueue=StateDeque")
     cmd = ["java"] + jopts + ["-cp", JAR, "tlc2.TLC", "-workers", str(workers), "-metadir", meta,
